@@ -414,6 +414,17 @@ impl World {
         let mut w = self.clone();
         let one = |w: World| vec![w];
         match op {
+            Op::SendT(255) | Op::RecvT(255) => {
+                // `Instant::now() + Duration::MAX` overflows: the call panics
+                // before it touches the channel (not in the properties' input
+                // space; it is here so that the panic is seen to be harmless)
+                w.push_res(t, Res::Panicked, None);
+                one(w)
+            }
+            Op::SendOT(255) => {
+                w.push_res(t, Res::Panicked, Some(true));
+                one(w)
+            }
             Op::Send | Op::SendRepoll | Op::SendT(_) | Op::SendOT(_) => {
                 let opt = matches!(op, Op::SendOT(_));
                 match w.send_begin(tag) {
@@ -614,6 +625,10 @@ impl World {
                     }
                 }
                 w.push_res(t, Res::Ok, None);
+                one(w)
+            }
+            Op::MoveStream(_) => {
+                w.push_res(t, Res::Unit, None);
                 one(w)
             }
             Op::StreamIsTerm(_) => {
